@@ -12,6 +12,7 @@ CONSTANTS
  FixMonotone = TRUE
  FixReadOrder = TRUE
  FixRange = FALSE
+ FixIndexSearch = TRUE
  FixValidate = TRUE
  DevNoWait = FALSE
  DevCommitBeforeIndex = FALSE
